@@ -250,19 +250,20 @@ def project(iso, grid=None):
         out["id"] = str(iso.iso_id)
     except Exception as e:  # an isotherm without identity
         out["id"] = "raise:" + exc_class(e)
-    d = iso.to_dict()
-    out["labels"] = [entry(k, d.get(k)) for k in UNIT_KEYS]
-    out["adsorbate"] = entry("adsorbate", d.get("adsorbate"))
-    out["temperature"] = entry("temperature", d.get("temperature"))
-    out["tnum"] = num(d.get("temperature")) if isinstance(d.get("temperature"), (int, float)) else ["?", 0, 0, -1]
-    mat = d.get("material")
-    if isinstance(mat, dict):
-        out["material"] = entry("name", mat.get("name"))
-        out["matprops"] = sorted((entry(k, v) for k, v in mat.items() if k != "name"), key=lambda e: e["k"])
-    else:
-        out["material"] = entry("name", mat)
-        out["matprops"] = []
-    out["meta"] = sorted((entry(k, v) for k, v in d.items() if k not in MAIN_KEYS), key=lambda e: e["k"])
+    # read from the object's own attributes (not through to_dict, which the exporters themselves use)
+    out["labels"] = [entry(k, getattr(iso, k, None)) for k in UNIT_KEYS]
+    out["adsorbate"] = entry("adsorbate", str(iso.adsorbate))
+    t = getattr(iso, "_temperature", None)
+    out["temperature"] = entry("temperature", t)
+    out["tnum"] = num(t) if isinstance(t, (int, float)) else ["?", 0, 0, -1]
+    mat = iso.material
+    out["material"] = entry("name", getattr(mat, "name", None))
+    out["matprops"] = sorted((entry(k, v) for k, v in dict(getattr(mat, "properties", {})).items()), key=lambda e: e["k"])
+    out["meta"] = sorted((entry(k, v) for k, v in dict(iso.properties).items()), key=lambda e: e["k"])
+    if cls == "model":
+        # the branch a model isotherm was fitted on is part of its description
+        out["meta"].append(entry("branch", getattr(iso, "branch", None)))
+        out["meta"].sort(key=lambda e: e["k"])
     out["data"] = {"cols": [], "dtypes": [], "cells": [], "branch": [], "n": 0}
     out["model"] = {"name": "", "rmse": ["", 0, 0, -1], "rmse_tag": "", "params": [], "prange": [], "lrange": [], "range_tags": "", "pred": [], "branch": ""}
     if cls == "point":
